@@ -5,10 +5,11 @@ C11 — emulated compound operations.  Property statements proved so far; the UL
 import FAVerif.Models.Compound
 import FAVerif.Lemmas.NextProg
 import FAVerif.Lemmas.IsPow2
+import FAVerif.Lemmas.EFTBits
 import FAVerif.Generated.C11
 
 namespace FAVerif.Props.C11
-open FAVerif.IR FAVerif.FP FAVerif.FPQ FAVerif.Spec FAVerif.Gen.C11
+open FAVerif.IR FAVerif.FP FAVerif.FPQ FAVerif.Spec FAVerif.Gen.C11 FAVerif.Refine FAVerif.SoftRound
 
 /-- Every regenerated program (all variants, float16/32/64) is well formed. -/
 theorem generated_wf : ∀ p ∈ FAVerif.Gen.C11.all, p.2.wf = true := by decide +kernel
@@ -115,6 +116,32 @@ theorem next_up_generated (r : ℚ → ℚ) (q : QFmt) (hq : q.p = 24) (hr : IsR
     have : -((k : ℚ) * 2 ^ e) < 0 := by linarith
     simp only [Bool.false_eq_true, if_false, this, if_true]
     rw [hcq, next_down_neg hr hk1 hk2 he]
+
+/-- kinds of the nodes of `next`: node 2 (the sign test) is boolean, the rest are floats -/
+def nextKinds : List Bool := [false, false, true, false, false, false, false]
+
+/-- **`next(x, up=True)` on BIT PATTERNS** (float32): for every pattern x of a positive normal number
+m·2^e, whenever the run is defined and its float nodes (x/c and x·c are both computed) are finite, the
+softfloat returns a finite pattern whose value is (m+1)·2^e — the successor of x.  Through the
+refinement theorem (`Refine.refines`) from `next_up_generated`. -/
+theorem next_up_bit_exact_f32 (lib : Libm) (x : Nat) (m : Nat) (e : Int) (dx : decode binary32 x = .fin false m e)
+    (nm : 2 ^ 23 ≤ m) (env : Array Nat) (he : evalNodes binary32 lib [x] next_up_f32.nodes #[] = some env)
+    (hfin : ∀ (i : Nat) (v : Nat), env[i]? = some v → nextKinds[i]? = some false → isFiniteBits binary32 v = true)
+    (o : Nat) (ho : next_up_f32.eval lib [x] = some [o]) :
+    isFiniteBits binary32 o = true ∧ toQ binary32 o = some (((m : ℚ) + 1) * 2 ^ e) := by
+  have hf : WF binary32 := ⟨by decide, by decide⟩
+  obtain ⟨b1, b2⟩ := decode_bounds binary32 hf x false m e dx
+  have hk : kindsOf next_up_f32.nodes [] = some nextKinds := by decide +kernel
+  have hins := insRel1 (finite_of_decode _ _ _ _ _ dx) (toQ_fin _ x false m e dx)
+  have hv : valQ false m e = ((m : ℤ) : ℚ) * 2 ^ e := by simp [valQ]
+  rw [hv] at hins
+  have hq := (next_up_generated (rne (qf binary32 hf.hp)) (qf binary32 hf.hp) rfl (isRN_rne _) (m : ℤ) e
+    (by exact_mod_cast nm) (by exact_mod_cast b1) b2).1
+  have hfm : next_up_f32.fmt = binary32 := by decide
+  have := transfer1 next_up_f32 (by rw [hfm]; exact hf) nextKinds hk lib [x] _ (by rw [hfm]; exact hins) env (by rw [hfm]; exact he)
+    (by rw [hfm]; exact hfin) 6 (by decide) (by decide) o ho _ hq
+  rw [hfm] at this
+  simpa using this
 
 /-- Sample-free sanity of the bit-exact model on the tied program (powers of two and their
 neighbours, float32): next up of 1.0 is 1.0+ulp, next down of 1.0 is 1.0-ulp/2. -/
